@@ -216,8 +216,8 @@ def inputs_json(p, **kw):
 # ----------------------------------------------------------------------------- case generation
 def tiers(tier):
     if tier == "quick":
-        return dict(nprob=30, npass=40, nfista=24, nas=56, nadmm=10, aswarm=80)
-    return dict(nprob=240, npass=400, nfista=160, nas=640, nadmm=60, aswarm=1500)
+        return dict(nprob=30, npass=40, nfista=24, nas=56, nadmm=10, aswarm=80, ncold=12)
+    return dict(nprob=240, npass=400, nfista=160, nas=640, nadmm=60, aswarm=1500, ncold=100)
 
 
 def dyadic_start(rng, r, n, kind):
@@ -437,7 +437,7 @@ def run(chk):
         l1 = rng.choice([None, None, 0.25, 1.0, 0.0]); l2 = rng.choice([None, None, 0.125, 0.5])
         kind = rng.choice(["dense", "sparse", "zero", "infeasible", "cold", "cold"])
         # cold starts: problems of different magnitude (the rescaling denominator sum(UtU * V V^T) above and below 1)
-        scale = rng.choice([1.0, 2.0 ** -3, 2.0 ** -6]) if kind == "cold" and not (l1 or l2) else 1.0
+        scale = rng.choice([1.0, 2.0 ** -6, 2.0 ** -9]) if kind == "cold" else 1.0
         p = gen_problem(rng, r, n, signed, l1 or 0.0, l2 or 0.0, style=rng.choice([None, None, "all_active"]), scale=scale)
         G, B = p["G"].copy(), p["B"]
         eps = rng.choice([0.0, 0.0, 0.0, 2.0 ** -10, 0.5])
@@ -484,6 +484,26 @@ def run(chk):
             if upd and float(np.min(V[upd, :])) < eps and not nz:
                 chk.finding(EP_HALS, inputs_json(p, V0=V0, epsilon=eps, n_iter_max=iters), f"iterate below epsilon: {float(np.min(V[upd, :]))} < {eps}",
                             "C13_hals_iterates_ge_eps", observed=V)
+
+    # ---------------- B'. the cold start alone (n_iter_max = 0) vs the model's hals_init, over problem magnitudes
+    for t, (r, n) in enumerate(sizes(T["ncold"])):
+        p = gen_problem(rng, r, n, rng.random() < 0.5, 0.0, 0.0, style=rng.choice(["mixed", "mixed", "degenerate", "all_active"]),
+                        scale=rng.choice([1.0, 2.0 ** -4, 2.0 ** -6, 2.0 ** -9]))
+        G, B = p["G"], p["B"]
+        sol = np.linalg.solve(G, B)
+        try:
+            st0, impl0 = impl_call(chk, lambda: quiet(hals_nnls, B.copy(), G.copy(), V=None, n_iter_max=0))
+        except Skip:
+            continue
+        chk.count(key=("hals-cold-start", r, n, p["style"]), nontrivial=r * n > 1)
+        chk.hist("hals_pass_start", "cold-start-only")
+        if st0 != "ok" or not finite(impl0):
+            chk.finding(EP_HALS, inputs_json(p, V0=None, n_iter_max=0), f"hals_nnls cold start is not a finite matrix: {impl0}", "C13_hals_returns",
+                        observed=impl0 if st0 == "ok" else None)
+            continue
+        o = f"(mkH None None false {C.q(0.0)} {C.q(MEPS)})"
+        add_case(lambda cid: f"(CHals {cid}%nat {mat_lit(B)} {mat_lit(G)} {n}%nat None {mat_lit(sol)} 0%nat {C.q(0.0)} {o} {mat_lit(impl0)} (Ok (Some {mat_lit(impl0)})))",
+                 ("cold-start-only", r, n, p["style"]))
 
     # ---------------- C. FISTA iterations: model vs implementation
     for t, (r, n) in enumerate(sizes(T["nfista"])):
